@@ -369,6 +369,98 @@ def length_shard(arg):
 
 
 # =====================================================================================================
+# (5) semantically invalid but syntactically clean texts: the error branches of the builder callbacks (where the grammar's
+#     idea of what was pushed and the builder's can drift apart). Every snippet alone and every ordered pair, in every slot.
+SEM_DECLS = [
+    "struct { chan cf; } sv1;", "struct { int i1; broadcast chan cb[2]; } sv2;", "typedef struct { void vf; int i2; } st3; st3 sv3;",
+    "struct { string sf; } sv4;", "struct { int dup; int dup; } sv5;", "struct { struct { chan inner; } in1; int i3; } sv6;",
+    "struct { } sv7;", "typedef struct { int a1; } st8; st8 sv8 = { 1, 2 };", "int arr9[2] = { 1, 2, 3 };", "int arr10[0];", "int arr11[-1];",
+    "void vv12;", "void arr13[2];", "int dupv; int dupv;", "typedef int dupt; typedef int dupt;", "int fdup() { return 1; } int fdup() { return 2; }",
+    "int fpar(int p, int p) { return p; }", "void fret() { return 1; }", "int fnoret() { }", "int fcall() { return nosuchfn(1); }",
+    "int fvar; int fcall2() { return fvar(1); }", "int farr() { int q; return q[1]; }", "int fdot() { int q; return q.x; }",
+    "int fidx() { int a[2]; return a[1][2]; }", "int fargs(int a) { return a; } int fuse = fargs(1, 2);", "int fargs0() { return 1; } int fuse0 = fargs0(1);",
+    "const int c20;", "const int c21 = c21;", "int self22 = self22;", "clock ck23 = 1; clock ck24 = ck23;", "chan ch25 = 1;",
+    "meta clock mc26;", "urgent int ui27;", "broadcast int bi28;", "const chan cc29;", "int[5,1] r30;", "int[0,nosuch] r31;", "scalar[0] s32;", "scalar[-1] s33;",
+    "typedef scalar[2] sc34; sc34 a34; int b34 = a34;", "int a35[sc34x];", "typedef nosuchtype t36; t36 v36;", "nosuch37 v37;",
+    "int f38(int &r) { return r; } int u38 = f38(1);", "int f39(int a[2]) { return a[0]; } int b39[3]; int u39 = f39(b39);",
+    "void f40() { break; }", "void f41() { continue; }", "void f42() { int i; for (i : nosuch) { } }", "void f43() { for (q : int) { } }",
+    "void f44() { while (1) { int d; int d; } }", "void f45(chan &c) { c = c; }", "void f46() { 1 = 2; }", "void f47() { f47 = 1; }",
+    "void f48() { int x; x++ ++; }", "int f49() { return forall (i : chan) true; }", "int f50() { return sum (i : int[0,1]) true; }",
+    "import \"nosuchlib.so\" { int ext51(int a); };", "import \"nosuchlib.so\" { nosuch52 = int ext52(); };", "dynamic D53(clock c);", "dynamic D54(); dynamic D54();",
+    "chan priority nosuch55 < default;", "chan priority 1 < default;", "progress { nosuch56; }", "gantt { G57 : nosuch57 -> 1; }",
+    "typedef struct { int f; } rec58; rec58 r58; int v58 = r58;", "int a59[2]; int v59 = a59;", "int a60[2]; int b60[3] = a60;",
+    "double d61 = \"str\";", "string s62 = 1;", "bool b63 = 1.5;", "int i64 = 1.5 + true;",
+]
+SEM_LABELS = {
+    "select": ["s : chan", "s : struct { int a; }", "s : int", "s : nosuch", "s : int[0,1], s : int[0,1]", "i : int[0,1]", "s : scalar[2]", "s : int[1,0]", "s : void"],
+    "guard": ["c", "arr", "fn", "s", "i = 1", "nosuch", "x", "x < y < 1", "fn(1, 2)", "arr[1][2]", "s.nosuch", "i.f", "c!", "1 ? x : c", "forall (q : chan) true"],
+    "synchronisation": ["i!", "x?", "arr[0]!", "fn(1)!", "c[0]!", "nosuch!", "c", "s.f?", "(c)!", "c!!"],
+    "assignment": ["1 = 2", "c = c", "fn = 1", "k = 1", "x = c", "arr = 1", "s = 1", "i = arr", "i++ ++", "nosuch = 1", "fn(c)", "i = s", "s.f = s", "x' = 1"],
+    "invariant": ["c", "i = 1", "x < 1 || y < 1", "x' == c", "arr", "nosuch", "x' == 1 && x' == 2", "s", "fn"],
+    "probability": ["c", "x", "s", "arr", "-1", "nosuch", "1.5 + c", "i = 1"],
+    "parameter": ["chan c, chan c", "int p, int p", "void v", "int &p[nosuch]", "struct { chan c; } p", "nosuch p", "const clock &x", "int p = 1", "urgent chan &u, broadcast chan &b, int[0,1] k, scalar[2] sq"],
+    "system": ["system nosuch;", "P = T(); P = T(); system P;", "P = T(1); system P;", "P = nosuch(); system P;", "P = T2(); system P, P;", "system T < T;", "P(int p, int p) = T(); system P;",
+               "P(chan c) = T(); system P;", "system T, T2; progress { nosuch; }", "P = T(); system P; gantt { G : P.nosuch -> 1; }", "system i;", "P = i(); system P;", "P = T(); Q = P(); R = Q(); system R;"],
+}
+
+
+def semantic_docs(t):
+    docs = []
+    sink = PS.ta_doc
+    singles = SEM_DECLS
+    pairs = [(a, b) for a in SEM_DECLS for b in SEM_DECLS] if t == "thorough" else [(a, b) for i, a in enumerate(SEM_DECLS) for j, b in enumerate(SEM_DECLS) if (i + 2 * j) % 7 == 0]
+    for d in singles:
+        docs.append(("sem:decl:" + d[:40], sink(gdecl=PS.GDECL + X.esc(d)), "xml"))
+        docs.append(("sem:local-decl:" + d[:40], sink(ldecl="int l; clock lx; " + X.esc(d)), "xml"))
+        docs.append(("sem:xta:" + d[:40], PS.GDECL + d + "\nprocess T() { " + d + " state A; init A; }\nsystem T;\n", "xta"))
+        docs.append(("sem:xta-old:" + d[:40], "int i; clock x; chan c; " + d + "\nprocess T { state A; init A; }\nsystem T;\n", "xta-old"))
+    for a, b in pairs:
+        docs.append(("sem:decl-pair:%s|%s" % (a[:25], b[:25]), sink(gdecl=PS.GDECL + X.esc(a + " " + b)), "xml"))
+    for kind, texts in SEM_LABELS.items():
+        for tx in texts:
+            e = X.esc(tx)
+            if kind == "parameter":
+                docs.append(("sem:parameter:" + tx[:40], sink(params=e, system="system T2;"), "xml"))
+            elif kind == "system":
+                docs.append(("sem:system:" + tx[:40], sink(system=e), "xml"))
+            elif kind == "invariant":
+                docs.append(("sem:invariant:" + tx[:40], sink(loc0=PS.lab("invariant", e)), "xml"))
+            else:
+                others = "".join(PS.lab(k, v) for k, v in (("select", "q : int[0,1]"), ("guard", "i &gt;= 0"), ("synchronisation", "c!"), ("assignment", "j = 1")) if k != kind)
+                docs.append(("sem:%s:%s" % (kind, tx[:40]), sink(edge=PS.lab(kind, e) + others), "xml"))
+                docs.append(("sem:%s-first:%s" % (kind, tx[:40]), sink(edge=others + PS.lab(kind, e)), "xml"))
+    return docs
+
+
+def semantic_shard(arg):
+    t, i, n = arg
+    part = engine.Part()
+    w = engine.worker("san")
+    docs = [d for k, d in enumerate(semantic_docs(t)) if k % n == i]
+    for kind in ("xml", "xta", "xta-old"):
+        sel = [d for d in docs if d[2] == kind]
+        res = X.run_docs(w, [d[1] for d in sel], want=[], batch=25, kind="xml" if kind == "xml" else "xta", newxta=kind != "xta-old",
+                         timeout=120, one_timeout=30)
+        for (lab_, doc, _), r in zip(sel, res):
+            part.count()
+            part.nontrivial_case(lab_)
+            cls = ":".join(lab_.split(":")[:2])
+            rp = {"op": "xml" if kind == "xml" else "xta", "newxta": kind != "xta-old", "buf": doc}
+            if r.get("died"):
+                sig = engine.crash_signature(r)
+                part.outcome("crash")
+                part.violation("crash:%s:%s" % (sig, cls), "%s: %s: %s" % (lab_, sig, (r.get("stderr") or "")[-300:].replace("\n", " | ")), rp)
+            elif engine.sanitizer_hit(r):
+                part.outcome("sanitizer-report")
+                part.violation("san:%s:%s" % (engine.crash_signature(r), cls), "%s: %s" % (lab_, (r.get("stderr") or "")[:300].replace("\n", " | ")), rp)
+            elif r.get("exc") is not None and r.get("std") is False:
+                part.violation("nonstd-exception:%s:%s" % (r["exc"], cls), "%s ends in %s" % (lab_, r["exc"]), rp)
+            else:
+                part.outcome("semantic:" + ("std-exception" if r.get("exc") else ("diagnostics" if r.get("errors") else "accepted")))
+    return part.result()
+
+
+# =====================================================================================================
 # (3) growth families: no crash at any size, time roughly proportional to the size
 def growth_families():
     F = {}
@@ -488,6 +580,8 @@ def main():
         rep.merge(res)
     for res in engine.pmap(length_shard, [(t, i, 2 * n) for i in range(2 * n)]):
         rep.merge(res)
+    for res in engine.pmap(semantic_shard, [(t, i, 4 * n) for i in range(4 * n)]):
+        rep.merge(res)
     sizes = [10, 100, 1000, 5000, 10000] if t == "quick" else [10, 100, 1000, 10000, 30000, 100000]
     for res in engine.pmap(growth_shard, [(name, sizes) for name in growth_families()]):
         rep.merge(res)
@@ -504,8 +598,9 @@ def main():
                 "hostile text, drop/empty/alias/long attribute), every truncation and byte substitution of a kitchen-sink document, the "
                 "repository models through buffer/fd/file with truncations. (3) %d growth families at sizes %s on the -O2 build. "
                 "(4) %d documents whose identifiers / type names / numbers / strings / comments have lengths around the lexer's "
-                "MAXLEN=4000 in 16 position classes, sanitized build."
-                % (len(cfgs), len(growth_families()), sizes, len(length_docs(t))))
+                "MAXLEN=4000 in 16 position classes, sanitized build. (5) %d documents with semantically invalid but syntactically clean "
+                "declarations (alone, in pairs, in four slots) and labels (the builder's error branches), sanitized build."
+                % (len(cfgs), len(growth_families()), sizes, len(length_docs(t)), len(semantic_docs(t))))
     rep.nontrivial_count = states + len(xml_docs(t))
     rep.assumptions = ["digest pruning is sound if the digest covers everything later callbacks read (argued in DESIGN.md §3/C01); the "
                        "'shape' digest runs are heuristic and are not counted as exhaustive",
